@@ -186,20 +186,9 @@ class FlowReader:
             if isinstance(s, ast.Try):
                 if s.orelse:
                     raise self.err("try/else not supported")
-                st = self.stages_in(s.body)
+                steps, st = self.read_body(s.body)
                 self.no_deleters(s.body, allowed=None)
-                hs = []
-                for h in s.handlers:
-                    if isinstance(h.type, ast.Tuple):
-                        classes = [_exc_name(e) for e in h.type.elts]
-                    else:
-                        classes = [_exc_name(h.type)]
-                    act = self.handler_action(h)
-                    self.no_deleters(h.body, allowed=None)
-                    if self.stages_in(h.body):
-                        raise self.err("stage call inside an except clause")
-                    for c in classes:
-                        hs.append(f"({c}, {act})")
+                hs = self.read_handlers(s)
                 fin = False
                 if s.finalbody:
                     pol = self.finally_guard(s.finalbody, flag, dirvar)
@@ -210,7 +199,7 @@ class FlowReader:
                     del_user, del_tmp = du, dt
                 if not st:
                     raise self.err("try statement without a stage call after the directory was made")
-                items.append("Try [{}] [{}] {}".format("; ".join(st), "; ".join(hs), "true" if fin else "false"))
+                items.append("Try [{}] [{}] {}".format("; ".join(steps), "; ".join(hs), "true" if fin else "false"))
                 seen_stages += st
             else:
                 only_user = False
@@ -248,6 +237,47 @@ class FlowReader:
             del_user, del_tmp = False, False
         return {"items": items, "del_user": del_user, "del_tmp": del_tmp, "flag": flag,
                 "user_val": user_val, "tmp_val": tmp_val}
+
+    def read_handlers(self, t: ast.Try) -> List[str]:
+        hs = []
+        for h in t.handlers:
+            if isinstance(h.type, ast.Tuple):
+                classes = [_exc_name(e) for e in h.type.elts]
+            else:
+                classes = [_exc_name(h.type)]
+            act = self.handler_action(h)
+            self.no_deleters(h.body, allowed=None)
+            if self.stages_in_peek(ast.Module(body=h.body, type_ignores=[])):
+                raise self.err("stage call inside an except clause")
+            for c in classes:
+                hs.append(f"({c}, {act})")
+        return hs
+
+    def read_body(self, stmts: List[ast.stmt]) -> Tuple[List[str], List[str]]:
+        """statements of a top-level try body -> (steps, stages in order)"""
+        steps: List[str] = []
+        stages: List[str] = []
+        for s in stmts:
+            if isinstance(s, ast.Try) and self.stages_in_peek(s):
+                if s.orelse or s.finalbody:
+                    raise self.err("nested try with else/finally around a stage call")
+                for b in s.body:
+                    for n in ast.walk(b):
+                        if isinstance(n, ast.Try) and self.stages_in_peek(n):
+                            raise self.err("try nested deeper than two levels around a stage call")
+                st = self.stages_in(s.body)
+                hs = self.read_handlers(s)
+                steps.append("STry [{}] [{}]".format("; ".join(st), "; ".join(hs)))
+                stages += st
+            else:
+                for n in ast.walk(s):
+                    if isinstance(n, ast.Try) and self.stages_in_peek(n):
+                        raise self.err("nested try around a stage call below a compound statement")
+                self.no_exit([s])
+                st = self.stages_in([s])
+                steps += [f"SPlain {x}" for x in st]
+                stages += st
+        return steps, stages
 
     def stages_in_peek(self, node: ast.AST) -> bool:
         for n in ast.walk(node):
@@ -295,7 +325,9 @@ class FlowReader:
             raise self.err("sys.exit with a non-literal code")
         if isinstance(last, ast.Raise):
             if last.exc is None:
-                raise self.err("bare re-raise in an except clause is not modelled")
+                if len(h.body) != 1:
+                    raise self.err("bare re-raise after other statements is not modelled")
+                return "ARaiseSame"
             e = last.exc
             if isinstance(e, ast.Call):
                 e = e.func
